@@ -5,12 +5,15 @@ Open Scope N_scope.
 
 Definition scope := list (str * value).
 
-(* The open scopes, innermost first.  A scope opened by a function call is
-   flagged: it is the outermost scope visible from inside that call (the
-   callers' locals are their own). *)
+(* The open scopes, innermost first.  A scope is opened either by a function call (a frame: it is
+   the outermost scope visible from inside that call - the callers' locals are their own) or by a
+   foreach loop, which remembers how high the operand stack was once its iterator had been pushed
+   (vm.go keeps these heights in the `loops` slice of the running body). *)
+Inductive skind := SFrame | SLoop (mark : N).
+Definition is_frame (k : skind) : bool := match k with SFrame => true | SLoop _ => false end.
 Record env := mkEnv {
   globals : scope;
-  scopes : list (bool * scope)
+  scopes : list (skind * scope)
 }.
 
 Fixpoint assoc_get (name : str) (l : scope) : option value :=
@@ -25,13 +28,13 @@ Fixpoint assoc_set (name : str) (v : value) (l : scope) : scope :=
   | (n, x) :: l' => if str_eqb n name then (n, v) :: l' else (n, x) :: assoc_set name v l'
   end.
 
-Fixpoint local_get (name : str) (ss : list (bool * scope)) : option value :=
+Fixpoint local_get (name : str) (ss : list (skind * scope)) : option value :=
   match ss with
   | [] => None
   | (frame, s) :: ss' =>
       match assoc_get name s with
       | Some v => Some v
-      | None => if frame then None else local_get name ss'
+      | None => if is_frame frame then None else local_get name ss'
       end
   end.
 
@@ -42,13 +45,13 @@ Definition env_get (e : env) (name : str) : option value :=
   end.
 
 (* update the nearest enclosing scope that already holds the name *)
-Fixpoint local_update (name : str) (v : value) (ss : list (bool * scope)) : list (bool * scope) :=
+Fixpoint local_update (name : str) (v : value) (ss : list (skind * scope)) : list (skind * scope) :=
   match ss with
   | [] => []
   | (frame, s) :: ss' =>
       match assoc_get name s with
       | Some _ => (frame, assoc_set name v s) :: ss'
-      | None => if frame then (frame, s) :: ss' else (frame, s) :: local_update name v ss'
+      | None => if is_frame frame then (frame, s) :: ss' else (frame, s) :: local_update name v ss'
       end
   end.
 
@@ -66,10 +69,16 @@ Definition env_declare (e : env) (name : str) (v : value) : env :=
   | (frame, s) :: ss => mkEnv (globals e) ((frame, assoc_set name v s) :: ss)
   end.
 
-(* a loop scope *)
-Definition env_push (e : env) : env := mkEnv (globals e) ((false, []) :: scopes e).
+(* a loop scope, remembering the height of the operand stack *)
+Definition env_push (e : env) (mark : N) : env := mkEnv (globals e) ((SLoop mark, []) :: scopes e).
 (* the scope of a function call *)
-Definition env_push_frame (e : env) : env := mkEnv (globals e) ((true, []) :: scopes e).
+Definition env_push_frame (e : env) : env := mkEnv (globals e) ((SFrame, []) :: scopes e).
+(* the height remembered by the innermost scope, if that is a loop of the running body *)
+Definition env_mark (e : env) : option N :=
+  match scopes e with
+  | (SLoop k, _) :: _ => Some k
+  | _ => None
+  end.
 Definition env_pop (e : env) : option env :=
   match scopes e with
   | [] => None
